@@ -1,6 +1,7 @@
 import RF.Model.Proto
 import RF.Model.Lists
 import RF.Model.ListsRc
+import RF.Model.ListsItemize
 /-!
 Line-protocol operations for the list machinery (`src/lists.rs`, model `RF/Model/Lists.lean`).
 
@@ -26,7 +27,14 @@ Operations
         `unsupported` when a comment of the input is outside that model
   lists.rc <orig> <block_indent> <alignment> <hard_tabs> <tab_spaces>  -> string | unsupported   `rewrite_comment`
   lists.total_width <items>                                            -> <count>:<width>        `calculate_width`
+  lists.itemize <sep> <term> <leave_last 0|1> <first_pre:string> <src>   -> items | panic        `itemize_list(..).collect()`
+        src: `<item:optstring>|<post_snippet:string>` joined by `;`, `_` for no item
+  lists.comment_end <post> <sep> <term> <is_last>    -> n | panic          `get_comment_end`
+  lists.extract_post <post> <comment_end> <sep> <is_last>  -> optstring | panic   `extract_post_comment`
+  lists.extract_pre <pre>                            -> <optstring>:<style> | panic   `extract_pre_comment`
+  lists.extra_newline <post> <comment_end>           -> 0|1|panic          `has_extra_newline`
 ORACLES (judge the output of the real code)
+  lists.oracle.gaps <term> <first_pre> <src> <items> -> ok | bad:<k>   every gap's comments are handed on (firstBadGap)
   lists.oracle.content <items> <fmt> <out>  -> ok | bad:<expected content>   squeeze out = contentSpec
   lists.oracle.items <items> <out>          -> ok | bad   the item strings occur in `out`, disjoint, in order
   lists.oracle.comments <items> <out>       -> ok | bad   the squeezed comments occur in `squeeze out`, in order
@@ -112,8 +120,77 @@ def commentsSupported (cfg : Config) (items : List ListItem) : Bool :=
     (match it.preComment with | some c => ok c | none => true) &&
     (match it.postComment with | some c => ok c | none => true)
 
+def encOptS : Option (List Char) → String
+  | none => "~"
+  | some s => encChars s
+
+def encStyle : ListItemCommentStyle → String
+  | .sameLine => "0" | .differentLine => "1" | .none => "2"
+
+def encItem (x : ListItem) : String :=
+  encOptS x.preComment ++ ":" ++ encStyle x.preCommentStyle ++ ":" ++ encOptS x.item ++ ":" ++
+    encOptS x.postComment ++ ":" ++ (if x.newLines then "1" else "0")
+
+def encItemsOut (xs : List ListItem) : String :=
+  if xs.isEmpty then "_" else String.intercalate ";" (xs.map encItem)
+
+def decSrcItem (s : String) : Option SourceItem :=
+  match s.splitOn "|" with
+  | [it, post] => do
+    let it ← decOpt it
+    let post ← decChars post
+    pure ⟨it, post⟩
+  | _ => none
+
+def decSrc (s : String) : Option (List SourceItem) :=
+  if s == "_" then some [] else (s.splitOn ";").mapM decSrcItem
+
 def handle (op : String) (args : List String) : Option String :=
   match op, args with
+  | "lists.itemize", [sep, term, ll, pre, src] => some <| (do
+      let sep ← decChars sep
+      let term ← decChars term
+      let ll ← decBool ll
+      let pre ← decChars pre
+      let src ← decSrc src
+      pure (match itemize sep term ll pre src with
+        | some items => encItemsOut items
+        | none => "panic")).getD "?"
+  | "lists.comment_end", [post, sep, term, il] => some <| (do
+      let post ← decChars post
+      let sep ← decChars sep
+      let term ← decChars term
+      let il ← decBool il
+      pure (match getCommentEnd post sep term il with
+        | some n => toString n
+        | none => "panic")).getD "?"
+  | "lists.extract_post", [post, ce, sep, il] => some <| (do
+      let post ← decChars post
+      let ce ← ce.toNat?
+      let sep ← decChars sep
+      let il ← decBool il
+      pure (match extractPostComment post ce sep il with
+        | some r => encOptS r
+        | none => "panic")).getD "?"
+  | "lists.extract_pre", [pre] => some <| (do
+      let pre ← decChars pre
+      pure (match extractPreComment pre with
+        | some (c, st) => encOptS c ++ ":" ++ encStyle st
+        | none => "panic")).getD "?"
+  | "lists.extra_newline", [post, ce] => some <| (do
+      let post ← decChars post
+      let ce ← ce.toNat?
+      pure (match hasExtraNewline post ce with
+        | some b => if b then "1" else "0"
+        | none => "panic")).getD "?"
+  | "lists.oracle.gaps", [term, pre, src, items] => some <| (do
+      let term ← decChars term
+      let pre ← decChars pre
+      let src ← decSrc src
+      let items ← decItems items
+      pure (match firstBadGap term pre src items with
+        | none => "ok"
+        | some k => s!"bad:{k}")).getD "?"
   | "lists.tactic", [items, t, sep, w] => some <| (do
       let items ← decItems items
       let t ← decLTactic t
